@@ -14,7 +14,7 @@ func init() {
 		id: "C20",
 		li: levelInfo{
 			Level:       "other",
-			Explanation: "Static pairing rules on the statistics counters. R1: wherever the active gauge is incremented the total counter is incremented in the same block, and wherever it is decremented the destroyed counter is incremented (listener, TCP upstream, per-host pair). R2: after a successful registration every path of the connection goroutine reaches the release (deferred); the TCP upstream increments are followed by a deferred release with no return in between. R3: the release function updates its counters on every path except the not-registered one - in particular not depending on the registry being cleared by Stop. R4: each completion hook that records an outcome increments exactly one of success/failure on every path. R5: the total counter and the hook registration are adjacent (no return and no call that can complete the request in between). R6: gauges are decremented only inside release functions that run deferred. Numerical equality at quiescence follows from these plus C02 and is not measured. R8: a gauge that a completion hook decrements is incremented before the hook is registered.",
+			Explanation: "Static pairing rules on the statistics counters. R1: wherever the active gauge is incremented the total counter is incremented in the same block, and wherever it is decremented the destroyed counter is incremented (listener, TCP upstream, per-host pair). R2: after a successful registration every path of the connection goroutine reaches the release (deferred); the TCP upstream increments are followed by a deferred release with no return in between. R3: the release function updates its counters on every path except the not-registered one - in particular not depending on the registry being cleared by Stop. R4: each completion hook that records an outcome increments exactly one of success/failure on every path. R5: the total counter and the hook registration are adjacent (no return and no call that can complete the request in between). R6: gauges are decremented only inside release functions that run deferred. Numerical equality at quiescence follows from these plus C02 and is not measured. R8: a gauge that a completion hook decrements is incremented before the hook is registered. R9 (shared with C02.R1): every request is completed exactly once on every path.",
 			TrustedBase: []string{"go/ssa", "VTA call graph"},
 		},
 		run: checkC20,
